@@ -202,14 +202,15 @@ pub fn check_c20(r: &Runner, ctx: &mut Ctx, l: &mut Local, rec: &CaseRec) -> Res
     if rec.sub == "cachegrind" {
         // replay: recompute the scaling of this family
         let (f, n) = (rec.aux[0] as usize, rec.aux[1] as usize);
-        let bin = match vdigest_for_c20(r, false) {
+        let bname = C20_BUILDS[(rec.aux.get(2).copied().unwrap_or(0) as usize).min(2)];
+        let bin = match vdigest_for_c20(r, bname) {
             Some(b) => b,
             None => return Ok(()),
         };
         let tag = format!("replay{}", std::process::id());
         return match (family_cost(&bin, f, n, &tag), family_cost(&bin, f, 4 * n, &tag)) {
             (Ok((c1, _)), Ok((c4, rec4))) => {
-                judge_scaling(f, n, c1, c4, &rec4)?;
+                judge_scaling(f, n, c1, c4, &rec4, bname)?;
                 r.account(l, rec, true, "cachegrind scaling");
                 Ok(())
             }
@@ -333,22 +334,24 @@ fn family_cost(bin: &std::path::Path, f: usize, size: usize, tag: &str) -> Resul
 const CG_FACTOR: u64 = 8; // cost(4N) <= 8 * cost(N) + slack; linear = 4, quadratic = 16
 const CG_SLACK: u64 = 60_000;
 
-fn judge_scaling(f: usize, n: usize, c1: u64, c4: u64, rec: &CaseRec) -> Result<(), Violation> {
+const C20_BUILDS: [&str; 3] = ["runtime", "runtime-dbg", "simd-disabled"];
+
+fn judge_scaling(f: usize, n: usize, c1: u64, c4: u64, rec: &CaseRec, build: &str) -> Result<(), Violation> {
     if c4 > CG_FACTOR * c1 + CG_SLACK {
         let mut rec = rec.clone();
-        rec.aux = vec![f as u64, n as u64];
+        rec.aux = vec![f as u64, n as u64, C20_BUILDS.iter().position(|b| *b == build).unwrap_or(0) as u64];
         return Err(Violation::new(
             "C20/superlinear-instruction-count",
-            format!("family {} ({}): 6 parses of {} bytes cost {} instructions but 6 parses of {} bytes cost {} (x{:.1}; linear would be x4, the bound is x{})",
-                f, gen::family_name(f), n, c1, 4 * n, c4, c4 as f64 / c1.max(1) as f64, CG_FACTOR),
+            format!("vdigest build `{}`, family {} ({}): 6 parses of {} bytes cost {} instructions but 6 parses of {} bytes cost {} (x{:.1}; linear would be x4, the bound is x{})",
+                build, f, gen::family_name(f), n, c1, 4 * n, c4, c4 as f64 / c1.max(1) as f64, CG_FACTOR),
             &rec,
         ));
     }
     Ok(())
 }
 
-fn vdigest_for_c20(r: &Runner, simd_disabled: bool) -> Option<std::path::PathBuf> {
-    let v = super::p_variants::VARIANTS.iter().find(|v| v.name == if simd_disabled { "simd-disabled" } else { "runtime" }).unwrap();
+fn vdigest_for_c20(r: &Runner, name: &str) -> Option<std::path::PathBuf> {
+    let v = super::p_variants::VARIANTS.iter().find(|v| v.name == name).unwrap();
     match super::p_variants::build_variant(v) {
         Ok(p) => Some(p),
         Err((_, msg)) => {
@@ -365,11 +368,16 @@ fn cachegrind_phase(r: &Runner) {
         return;
     }
     let mut bins = vec![];
-    if let Some(b) = vdigest_for_c20(r, false) {
+    if let Some(b) = vdigest_for_c20(r, "runtime") {
         bins.push(("runtime", b));
     }
+    // the debug-assertion build: work hidden in a debug_assert! (a re-scan of the value so
+    // far at every fold, say) makes plain `cargo build` users quadratic, not release users
+    if let Some(b) = vdigest_for_c20(r, "runtime-dbg") {
+        bins.push(("runtime-dbg", b));
+    }
     if !r.quick() {
-        if let Some(b) = vdigest_for_c20(r, true) {
+        if let Some(b) = vdigest_for_c20(r, "simd-disabled") {
             bins.push(("simd-disabled", b));
         }
     }
@@ -377,8 +385,11 @@ fn cachegrind_phase(r: &Runner) {
     let mut jobs = vec![];
     // small sizes first: a quadratic family is then reported from its cheap runs and the
     // expensive ones are never started
-    for &n in sizes {
-        for (bi, _) in bins.iter().enumerate() {
+    for (si, &n) in sizes.iter().enumerate() {
+        for (bi, (name, _)) in bins.iter().enumerate() {
+            if r.quick() && *name == "runtime-dbg" && si > 0 {
+                continue; // quick tier: the debug-assertion build at the smallest size only
+            }
             for f in 0..gen::N_FAMILIES {
                 jobs.push((bi, f, n));
             }
@@ -406,7 +417,7 @@ fn cachegrind_phase(r: &Runner) {
                                 *m = (ratio, f);
                             }
                         }
-                        if let Err(v) = judge_scaling(f, n, c1, c4, &rec) {
+                        if let Err(v) = judge_scaling(f, n, c1, c4, &rec, bins[bi].0) {
                             r.report(v);
                         }
                     }
@@ -419,7 +430,7 @@ fn cachegrind_phase(r: &Runner) {
     r.stats.maxima.lock().unwrap().insert(format!("max cachegrind cost(4N)/cost(N) (family {})", m.1), m.0);
     r.stats.evals.fetch_add(jobs.len() as u64 * 4, std::sync::atomic::Ordering::Relaxed);
     r.stats.hist.lock().unwrap().insert("cachegrind scaling comparisons".into(), jobs.len() as u64);
-    r.phase_done(&format!("instruction-count scaling under valgrind --tool=cachegrind (production build of vdigest, no hooks): {} families × N in {:?} vs 4N × {} build(s); cost(4N) <= {}*cost(N)+{}", gen::N_FAMILIES, sizes, bins.len(), CG_FACTOR, CG_SLACK), jobs.len() as u64, true, t0);
+    r.phase_done(&format!("instruction-count scaling under valgrind --tool=cachegrind (production and debug-assertion builds of vdigest, no hooks): {} families × N in {:?} vs 4N × {} build(s); cost(4N) <= {}*cost(N)+{}", gen::N_FAMILIES, sizes, bins.len(), CG_FACTOR, CG_SLACK), jobs.len() as u64, true, t0);
 }
 
 pub fn run_c20(r: &Runner) {
